@@ -101,6 +101,10 @@ func child(args []string) int {
 	}
 	ctx := core.NewCtx(id, part, tier, seed)
 	ctx.Level = p.Level
+	ctx.KnownSigs = map[string]bool{}
+	for _, k := range loadKnown(verifDir(), id) {
+		ctx.KnownSigs[k.Sig] = true
+	}
 	// pinned witnesses of open known findings are executed first
 	wdir := filepath.Join(verifDir(), "known", id)
 	if ents, err := os.ReadDir(wdir); err == nil && p.Replay != nil {
